@@ -10,7 +10,9 @@
  * consecutive accesses of the real code to shared memory (load / hazard publication / validation load / plain read of
  * head->prev or prev->value / compare-exchange / link store) there is exactly one environment point.  At each point the
  * environment may perform one action (at most ENV_BUDGET during the operation):
- *   pop      head moves to its linked successor, the old dummy is RETIRED (remembering whether OUR hazard slots covered it then)
+ *   pop      head moves to its linked successor, the old dummy is RETIRED (remembering whether OUR hazard slots covered it then);
+ *            optionally it is reclaimed at once, and optionally recycled as the new tail at once (compound actions keep the
+ *            action budget small: the classic head ABA is pop+reclaim+reuse, pop)
  *   push     a FREE pool node (possibly one that was reclaimed earlier: reuse/ABA) becomes the tail; its link is still missing
  *   link     a missing prev link of another pusher is completed
  *   reclaim  a RETIRED node not covered by a hazard pointer we published BEFORE its retirement becomes FREE and its fields are
@@ -45,11 +47,17 @@ static void v_free(hazard_pointer_thread_record_t* h, hazard_node_t* n);
 struct mpmc_fifo_node;
 static int verif_cas(struct mpmc_fifo_node* volatile* o, struct mpmc_fifo_node** e, struct mpmc_fifo_node* d);
 #undef atomic_load_explicit
+#undef atomic_load
 #undef atomic_compare_exchange_weak_explicit
 #undef atomic_compare_exchange_strong_explicit
+#undef atomic_compare_exchange_weak
+#undef atomic_compare_exchange_strong
 #define atomic_load_explicit(o, m) ({ __typeof__(__atomic_load_n((o), __ATOMIC_SEQ_CST)) _v = __atomic_load_n((o), __ATOMIC_SEQ_CST); env_point(); _v; })
 #define atomic_compare_exchange_weak_explicit(o, e, d, s, f) verif_cas((struct mpmc_fifo_node* volatile*)(o), (e), (d))
 #define atomic_compare_exchange_strong_explicit(o, e, d, s, f) verif_cas((struct mpmc_fifo_node* volatile*)(o), (e), (d))
+#define atomic_compare_exchange_weak(o, e, d) verif_cas((struct mpmc_fifo_node* volatile*)(o), (e), (d))
+#define atomic_compare_exchange_strong(o, e, d) verif_cas((struct mpmc_fifo_node* volatile*)(o), (e), (d))
+#define atomic_load(o) atomic_load_explicit((o), memory_order_seq_cst)
 
 #include "mpmc_fifo.h" /* real code */
 
@@ -146,6 +154,19 @@ static void do_reclaim(int n) {   /* a scan reclaims a retired node that we do n
   node(n)->next = 0;
 }
 
+static void do_push(int n) {
+  __CPROVER_assume(st[n] == ST_FREE && len <= NP);
+  node(n)->value = (void*)(next_val++);
+  gval[n] = node(n)->value;
+  node(n)->prev = 0;
+  node(n)->next = node(q[len - 1]);
+  F.tail = node(n);
+  pend[len - 1] = 1;
+  q[len++] = n;
+  st[n] = ST_INQ;
+  if (nondet_bool() && my_link_from != q[len - 2]) { node(q[len - 2])->prev = node(n); pend[len - 2] = 0; }
+}
+
 static void env_action(void) {
   unsigned a = nondet_uint() % 4;
   if (a == 0) {          /* another thread pops (and its scan may reclaim the old dummy right away) */
@@ -156,19 +177,12 @@ static void env_action(void) {
     F.head = node(q[0]);
     st[old] = ST_RETIRED;
     covered_at_retire[old] = covered(old);
-    if (nondet_bool()) do_reclaim(old);
+    if (nondet_bool()) {
+      do_reclaim(old);
+      if (nondet_bool()) do_push(old);   /* ... and a pusher recycles it as the new tail straight away */
+    }
   } else if (a == 1) {   /* another thread pushes a fresh or recycled node: tail swapped, link possibly still missing */
-    int n = pick_node(ST_FREE);
-    __CPROVER_assume(len <= NP);
-    node(n)->value = (void*)(next_val++);
-    gval[n] = node(n)->value;
-    node(n)->prev = 0;
-    node(n)->next = node(q[len - 1]);
-    F.tail = node(n);
-    pend[len - 1] = 1;
-    q[len++] = n;
-    st[n] = ST_INQ;
-    if (nondet_bool() && my_link_from != q[len - 2]) { node(q[len - 2])->prev = node(n); pend[len - 2] = 0; }
+    do_push(pick_node(ST_FREE));
   } else if (a == 2) {   /* another pusher completes its link */
     int i = nondet_int();
     __CPROVER_assume(i >= 0 && i < len - 1 && pend[i] && my_link_from != q[i]);
